@@ -743,7 +743,10 @@ def ifPutMany (cfg : Cfg) (o : Opts) (st : ISt) (rs : List Rec) (now : Int) : IS
   else ({ st with store := batchApply cfg o now st.store rs }, .ok)
 
 /-- `flushWriteCache(0)` through `FlushCache`: every pending record goes through `PutMany` (which applies the
-    options again, on the very object the cache holds), then the write set is cleared. -/
+    options again, on the very object the cache holds), then the write set is cleared. `PutMany` refuses an
+    interface that is not both local and internal (`ifPutMany`): the batch function it hands out answers every
+    record with `ErrPermissionDenied`, `flushWriteCache` logs that and clears the write set all the same — the
+    pending records of such an interface are dropped, nothing reaches the storage. -/
 def flushOne (cfg : Cfg) (o : Opts) (now : Int) (st : ISt) (r : Rec) : ISt :=
   let r := { r with md := o.apply r.md now }
   let st := { st with cache := if st.cache.has r.key then st.cache.put r else st.cache }
@@ -751,9 +754,10 @@ def flushOne (cfg : Cfg) (o : Opts) (now : Int) (st : ISt) (r : Rec) : ISt :=
 
 def ifFlush (cfg : Cfg) (o : Opts) (st : ISt) (now : Int) : ISt × Out :=
   if o.cache ≠ .delay then (st, .ok)
-  else
+  else if o.all then
     let st' := st.wcache.foldl (flushOne cfg o now) st
     ({ st' with wcache := [] }, .ok)
+  else ({ st with wcache := [] }, .ok)
 
 /-- `ClearCache`: gcache `Purge` drops all entries without running the evict handler. -/
 def ifClear (st : ISt) : ISt × Out := ({ st with cache := [] }, .ok)
